@@ -61,10 +61,35 @@ def _solve_group(args):
       continue
     t1 = time.time()
     try:
-      r = smt.check(ob.assumptions, ob.goal, timeout_ms=ob.meta.get("timeout_ms", timeout), seed=seed)
+      r = None
+      if ob.meta.get("int_projection") and ob.expect != "refutable":
+        # index obligation: first try with the integer part of the hypotheses only
+        r1 = smt.check(smt.integer_projection(ob.assumptions), ob.goal, timeout_ms=ob.meta.get("timeout_ms", timeout), seed=seed)
+        if r1["status"] == "unsat":
+          r = r1
+        elif r1["status"] == "sat":
+          r2 = smt.check(ob.assumptions, ob.goal, timeout_ms=5000, seed=seed, backends=("z3api",))
+          if r2["status"] in ("unsat", "sat"):
+            r = r2
+          else:
+            r = r1
+            r["note"] = "counter-model satisfies the integer part of the path condition; floating-point feasibility of that path was not established by the solver"
+      if r is None:
+        r = smt.check(ob.assumptions, ob.goal, timeout_ms=ob.meta.get("timeout_ms", timeout), seed=seed, cone=(ob.expect != "refutable"))
     except Exception:
       out.append(Result(oid=ob.oid, status="crash", reason=traceback.format_exc()[-2000:], group=gname))
       continue
+    if r["status"] == "unknown" and ob.meta.get("sat_hints"):
+      # counter-model search under extra constraints: a model of (query and hint) is a model of the query
+      for hint in ob.meta["sat_hints"]:
+        try:
+          r2 = smt.check(list(ob.assumptions) + list(hint), ob.goal, timeout_ms=5000, seed=seed, backends=("z3api",))
+        except Exception:
+          continue
+        if r2["status"] == "sat":
+          r = r2
+          r["backend"] = str(r.get("backend")) + " (guided counter-model search)"
+          break
     res = Result(oid=ob.oid, group=gname, func=ob.func, kind=ob.kind, backend=r.get("backend"), time_s=round(time.time() - t1, 4), meta=ob.meta)
     st = r["status"]
     if ob.expect == "refutable":
@@ -92,9 +117,25 @@ def _solve_group(args):
     else:
       res["status"] = "undecided"
       res["reason"] = "solver: " + str(r.get("reason", "unknown"))
-    res["meta"] = {k: v for k, v in ob.meta.items() if k not in ("replay",) and isinstance(v, (str, int, float, list, dict, bool))}
+    res["meta"] = {k: v for k, v in ob.meta.items() if k not in ("replay", "sat_hints") and isinstance(v, (str, int, float, list, dict, bool))}
     out.append(res)
   return out
+
+
+_SCOPE = {}
+
+
+def _in_scope_file(pid, func):
+  if pid not in _SCOPE:
+    p = os.path.join(HERE, "contracts", f"scope_{pid}.txt")
+    names = set()
+    if os.path.exists(p):
+      for line in open(p):
+        line = line.strip()
+        if line and not line.startswith("#"):
+          names.add(line.split()[0])
+    _SCOPE[pid] = names
+  return func in _SCOPE[pid]
 
 
 def load_known():
@@ -141,7 +182,7 @@ def run_property(pid, tier="quick", seed=0, jobs=None):
       raise KeyError(oid)
 
   known_ids = _K()
-  viol, undec, crash, disch, knownhit = [], [], [], [], []
+  viol, undec, crash, disch, knownhit, excluded = [], [], [], [], [], []
   for r in results:
     s = r["status"]
     if s == "discharged":
@@ -155,6 +196,13 @@ def run_property(pid, tier="quick", seed=0, jobs=None):
       undec.append(r)
     elif s == "bounded":
       pass
+    elif s == "out-of-scope":
+      # function not translatable: fine only if the committed scope file says so, else undecided
+      if _in_scope_file(pid, r.get("func") or (r.get("meta") or {}).get("function", "")):
+        excluded.append(r)
+      else:
+        r["reason"] = "function left the verifier's dialect and is not in contracts/scope_%s.txt: %s" % (pid, r.get("reason"))
+        undec.append(r)
     else:
       crash.append(r)
   # a known finding that no longer fails is simply not printed (the obligation is then discharged)
@@ -224,6 +272,7 @@ def run_property(pid, tier="quick", seed=0, jobs=None):
       "bounded_standins": [{"oid": r["oid"], "bound": r.get("bound"), "cases": r.get("cases")} for r in bounded],
       "undecided_conjuncts": info.get("undecided", []),
       "undecided_obligations": [r["oid"] for r in undec],
+      "unverified_surroundings": sorted({(r.get("func") or "") + ": " + str(r.get("reason"))[:100] for r in excluded}),
       "explanation": info.get("explanation", ""),
     },
     "assumptions": TRUSTED_BASE + list(info.get("trusted", [])) + list(info.get("assumptions", [])),
@@ -232,7 +281,7 @@ def run_property(pid, tier="quick", seed=0, jobs=None):
   }
   with open(os.path.join(HERE, "evidence", f"{pid}.json"), "w") as f:
     json.dump(ev, f, indent=1, default=str)
-  print(f"[{pid}] obligations={n_ob} discharged={len(disch)} violations={len(viol)} known={len(knownhit)} undecided={len(undec)} bounded={len(bounded)} wall={ev['wall_s']}s")
+  print(f"[{pid}] obligations={n_ob} discharged={len(disch)} violations={len(viol)} known={len(knownhit)} undecided={len(undec)} bounded={len(bounded)} out_of_scope={len(excluded)} wall={ev['wall_s']}s")
   if crash:
     return 3
   if viol:
